@@ -9,8 +9,6 @@ A violation is a tuple (property, clause, message, op_id).
 """
 import posixpath
 
-CACHE_DIR = "/SIMFS/cache"
-CONFIG = CACHE_DIR + "/file_cache_config.json"
 
 FAILING = {"NOTFOUND", "ERR_BEFORE", "ERR_MID", "ERR_AFTER", "HTTP_404", "HTTP_5XX", "CONN_ERR", "TIMEOUT",
            "EIO", "ENOSPC", "EMFILE", "SRC_MISSING", "PP_ERR_BEFORE", "PP_ERR_MID", "PP_ERR_AFTER", "RENAME_EIO"}
@@ -21,23 +19,12 @@ def is_cache_name(name):
     return name.startswith("cachefile_") and name.endswith("_cachefile")
 
 
-def cache_files(snap):
-    """{path: (size, atime, mtime, bytes)} for cache-pattern regular files directly in the cache dir."""
+def cache_files(snap, cache_dir):
+    """{path: (size, atime, mtime, bytes, ino, gen)} for cache-pattern regular files directly in the cache dir."""
     out = {}
     for p, (kind, size, at, mt, data, ino, gen) in snap.items():
-        if kind == "f" and posixpath.dirname(p) == CACHE_DIR and is_cache_name(posixpath.basename(p)):
+        if kind == "f" and posixpath.dirname(p) == cache_dir and is_cache_name(posixpath.basename(p)):
             out[p] = (size, at, mt, data, ino, gen)
-    return out
-
-
-def foreign_entries(snap):
-    out = {}
-    for p, (kind, size, at, mt, data, ino, gen) in snap.items():
-        if p == CACHE_DIR or p == CONFIG:
-            continue
-        if kind == "f" and posixpath.dirname(p) == CACHE_DIR and is_cache_name(posixpath.basename(p)):
-            continue
-        out[p] = (kind, mt, data)
     return out
 
 
@@ -59,6 +46,7 @@ class Oracle:
     def __init__(self, world):
         self.w = world
         self.prop = world.prop
+        self.cd = world.cache_dir
         self.c19 = self.prop == "C19"
         self.registered = None  # set of keys, None while no cache object exists
         self.path_seen = {}
@@ -89,7 +77,7 @@ class Oracle:
         """18g: files the user put into the cache directory (FOREIGN operations) that are not cache files
         must never be modified or deleted.  Files the cache itself creates (config, temporaries) are its own."""
         if obs.kind == "FOREIGN" and not obs.crashed:
-            p = obs.foreign_path or (CACHE_DIR + "/" + obs.op["name"])
+            p = obs.foreign_path or (self.cd + "/" + obs.op["name"])
             ent = obs.post.get(p)
             if ent is not None and ent[0] == "f" and p not in self.foreign:
                 self.foreign[p] = (ent[3], ent[4])
@@ -134,8 +122,8 @@ class Oracle:
             self.registered = None
             self.tainted = True
             return None
-        pre_files = cache_files(obs.pre)
-        post_files = cache_files(obs.post)
+        pre_files = cache_files(obs.pre, self.cd)
+        post_files = cache_files(obs.post, self.cd)
         if obs.exc is not None:
             self.registered = None
             self.ended = True
@@ -186,8 +174,8 @@ class Oracle:
     def _check_evictions(self, obs, current, strict):
         """18f. current: set of paths of the current request."""
         w = self.w
-        post_files = cache_files(obs.post)
-        victims = [u for u in obs.unlinks if posixpath.dirname(u[0]) == CACHE_DIR and is_cache_name(posixpath.basename(u[0]))
+        post_files = cache_files(obs.post, self.cd)
+        victims = [u for u in obs.unlinks if posixpath.dirname(u[0]) == self.cd and is_cache_name(posixpath.basename(u[0]))
                    and u[5] == "unlink"]
         evicted = []
         for (p, ino, at, mt, size, how) in victims:
@@ -223,8 +211,8 @@ class Oracle:
         w = self.w
         req = list(obs.op["keys"])
         reg = self.registered if self.registered is not None else set()
-        pre_files = cache_files(obs.pre)
-        post_files = cache_files(obs.post)
+        pre_files = cache_files(obs.pre, self.cd)
+        post_files = cache_files(obs.post, self.cd)
         allow_missing = w.knobs.get("allow_missing", True) if w.knobs.get("api", "object") == "object" else True
         # --- classify the request ------------------------------------------------
         rejected = set()
@@ -318,7 +306,7 @@ class Oracle:
             p = served[i]
             if p is None:
                 continue
-            if posixpath.dirname(p) != CACHE_DIR:
+            if posixpath.dirname(p) != self.cd:
                 return self._v("18a" if not self.c19 else "19b", "returned path %s is outside the cache directory" % p, obs)
             prev = self.path_seen.get(k)
             if prev is not None and prev != p and not self.c19:
@@ -362,6 +350,15 @@ class Oracle:
                 if not ok:
                     return self._v("19b" if self.c19 else "18a",
                                    "key %d was fetched but the served file holds %s" % (k, self._describe(k, data)), obs)
+        # --- a validate directive on a cached entry must be honoured ---------------------
+        if self.c19:
+            ov = obs.op.get("val") or []
+            consulted = {key for (_op, key, verdict) in obs.validator_calls}
+            for pos, k in enumerate(req):
+                has_val = ov[pos] if pos < len(ov) and ov[pos] is not None else w.keys[k].get("val")
+                if has_val and k in reg and k not in consulted:
+                    return self._v("19e", "key %d was cached and requested with a validate directive, but its validator was "
+                                   "never consulted (a rejected entry would have been served)" % k, obs)
         # --- hits must not contact the resource; misses must -------------------------
         for r, n in fetch_count.items():
             if n > miss_per_res.get(r, 0):
@@ -552,7 +549,7 @@ class Oracle:
             self.registered = None
             self.tainted = True
             return None
-        pre_files, post_files = cache_files(obs.pre), cache_files(obs.post)
+        pre_files, post_files = cache_files(obs.pre, self.cd), cache_files(obs.post, self.cd)
         if obs.exc is not None:
             if k not in reg and isinstance(obs.exc, ValueError):
                 return None
@@ -580,7 +577,7 @@ class Oracle:
             self.registered = None
             self.tainted = True
             return None
-        post_files = cache_files(obs.post)
+        post_files = cache_files(obs.post, self.cd)
         if obs.exc is not None:
             import json as _json
             if (self.c19 and self.tainted and w_is_module(self.w) and isinstance(obs.exc, ValueError)
